@@ -107,3 +107,68 @@ func VPH_isFull() {
 		vp_Assert(len(commands) == 1 && len(commands[0]) == 3 && commands[0][0] == "rev-parse" && commands[0][1] == "--git-path" && commands[0][2] == "shallow", "git is asked for the path of 'shallow'")
 	}
 }
+
+// VPH_repoFromPath (C13): however the repository is addressed, git itself is
+// asked (`git -C <path> rev-parse --git-dir`) and its answer becomes GIT_DIR:
+// verbatim when absolute, relative to <path> otherwise.
+func VPH_repoFromPath() {
+	if vp_Native() {
+		vp_Reach("end")
+		return
+	}
+	vp_Stub("github.com/github/git-sizer/git.findGitBin", func() (string, error) { return "/usr/bin/git", nil })
+	path := []string{".", "sub/dir", "/abs/work", "../up"}[vp_Choice("path", 4)]
+	answer := []string{".git", "/abs/work/.git", "../../.git", ".", "/srv/bare.git", ".git/worktrees/wt"}[vp_Choice("answer", 6)]
+	trailer := []string{"\n", "", "\r\n", " \n"}[vp_Choice("trailer", 4)]
+	fails := vp_Choice("fails", 2) == 1
+	var argv []string
+	vp_Stub("os/exec.Command", func(name string, arg ...string) *exec.Cmd {
+		argv = append([]string{name}, arg...)
+		return &exec.Cmd{Path: name, Args: argv}
+	})
+	vp_Stub("(*os/exec.Cmd).Output", func(c *exec.Cmd) ([]byte, error) {
+		if fails {
+			return nil, &exec.ExitError{Stderr: []byte("fatal: not a git repository")}
+		}
+		return []byte(answer + trailer), nil
+	})
+	var gotDir string
+	vp_Stub("github.com/github/git-sizer/git.NewRepositoryFromGitDir", func(gitDir string) (*Repository, error) {
+		gotDir = gitDir
+		return &Repository{gitDir: gitDir, gitBin: "/usr/bin/git"}, nil
+	})
+	repo, err := NewRepositoryFromPath(path)
+	want := []string{"/usr/bin/git", "-C", path, "rev-parse", "--git-dir"}
+	vp_Assert(len(argv) == len(want), "git -C <path> rev-parse --git-dir")
+	for i := 0; i < len(want) && i < len(argv); i++ {
+		vp_Assert(argv[i] == want[i], "argv element")
+	}
+	if fails {
+		vp_Assert(err != nil && repo == nil, "an absent repository is an error")
+		vp_Reach("absent")
+		return
+	}
+	vp_Assert(err == nil && repo != nil, "repository opened")
+	wantDir := answer
+	if answer[0] != '/' {
+		// lexical join, as filepath.Join does
+		switch {
+		case path == "." && answer == ".":
+			wantDir = "."
+		case path == ".":
+			wantDir = answer
+		case answer == ".":
+			wantDir = path
+		case path == "sub/dir" && answer == "../../.git":
+			wantDir = ".git"
+		case path == "/abs/work" && answer == "../../.git":
+			wantDir = "/.git"
+		case path == "../up" && answer == "../../.git":
+			wantDir = "../../.git"
+		default:
+			wantDir = path + "/" + answer
+		}
+	}
+	vp_Assert(gotDir == wantDir, "GIT_DIR is git's answer: verbatim if absolute, else relative to the given path (surrounding white space removed)")
+	vp_Reach("end")
+}
